@@ -927,6 +927,14 @@ def record_cases(rng: random.Random) -> List[TCase]:
             for wrap_a, wrap_x in ((lambda t: t, lambda v: v), (lambda t: ("AList", t), lambda v: ("VList", [v]))):
                 for sig in (False, True):
                     out.append(TCase(classes, wrap_a(a), wrap_x(x), sig, "records"))
+    # the tuple of no slots, Tuple[()]: only the empty tuple (and, in default mode, the empty list) - bare, as a
+    # union variant, as a list item
+    e_ = ("ATupleN", [])
+    for a_, wrapx in ((e_, lambda v: v), (("AUnion", [e_, sc("KStr")]), lambda v: v), (("AList", e_), lambda v: ("VList", [v])),
+                      (("ATupleN", [e_, sc("KInt")]), lambda v: ("VTuple", [v, I(1)]))):
+        for x in (("VTuple", []), ("VTuple", [I(1), S("a")]), ("VList", []), ("VList", [I(1)]), S("a"), ("VTuple", [("VTuple", [])])):
+            for sig in (False, True):
+                out.append(TCase(base, a_, wrapx(x), sig, "records"))
     # declared defaults are used as they are, on trust - also when they would not pass their own field's validator
     # (None for an int, a str for a date, a list for a tuple): a mapping that omits the key is accepted
     for kind, rk in (("named", "RkNamed"), ("data", "RkData")):
